@@ -5,7 +5,7 @@ import paramiko
 from cryptography.hazmat.primitives import serialization
 from cryptography.hazmat.primitives.asymmetric import ec, x25519
 
-from vf import core, kexlab, pair, sshsig
+from vf import core, kexlab, kexpins, pair, sshsig
 
 META = dict(
     title="kex agrees on K/H and authenticates the host key",
@@ -462,6 +462,132 @@ def multikey_case(ctx, kex, algs, sample):
         lab.close()
 
 
+def pinned_case(ctx, kex, cls, entry, hostalg, second, sample):
+    """Honest handshake whose ephemeral keys are pinned so that the raw shared secret starts with zero
+    bytes (class `cls`); then a re-exchange (pinned too when `second` is given, random otherwise)."""
+    rng = ctx.rng
+    desc = dict(stratum="honest-pinned-secret", kex=kex, hostkey=hostalg, leading_bytes=cls, second=bool(second))
+    ctx.case(("pinned", kex, cls, entry["client"][:16], hostalg, bool(second)), sample=desc if sample else None)
+    kexpins.install()
+    lab = kexlab.Lab(rng, kex, hostalg)
+    kexpins.pin(lab.tc, [entry["client"]] + ([second["client"]] if second else []))
+    kexpins.pin(lab.ts, [entry["server"]] + ([second["server"]] if second else []))
+    try:
+        if not lab.start(timeout=60):
+            ctx.violation("honest handshake failed (shared secret with leading zero bytes, %s): %s" % (cls, sig_of(lab)),
+                          "an unmodified pair whose shared secret starts with zero bytes did not complete the exchange",
+                          dict(case=desc, client_exc=repr(lab.pair.client_exc), server_exc=repr(lab.pair.server_exc)))
+            return
+        ctx.count("honest_handshakes_completed")
+        r = rekey(lab, rng.choice("cs"))
+        if r == "timeout":
+            ctx.inconclusive("rekey did not finish within 60 s (%r)" % desc)
+            return
+        if r is not None:
+            ctx.violation("honest rekey failed (after a shared secret with leading zero bytes): %s" % sig_of(lab),
+                          "renegotiate_keys() raised on a session keyed from a secret with leading zero bytes",
+                          dict(case=desc, exc=repr(r)))
+            return
+        ctx.count("honest_rekeys_completed")
+        try:
+            lab.tc.global_request("vf-ping@verif", wait=True)
+        except Exception as e:
+            ctx.violation("honest rekey failed (after a shared secret with leading zero bytes): %s" % core.exc_signature(e),
+                          "traffic after the re-exchange failed", dict(case=desc, exc=repr(e)))
+            return
+        if not pair.wait_for(lambda: len(lab.kh.calls["c"]) == 2 and len(lab.kh.calls["s"]) == 2, 30):
+            ctx.inconclusive("exchange bookkeeping did not settle (%r)" % desc)
+            return
+        # did the pin take?  (K recorded by both sides vs the secret computed offline with cryptography / pow)
+        want = [int(entry["K"], 16)] + ([int(second["K"], 16)] if second else [])
+        for i, w in enumerate(want):
+            for side in ("c", "s"):
+                got = lab.kh.calls[side][i]["K"]
+                if got != w:
+                    if kexpins.classify(entry["K"] and bytes.fromhex((second if i else entry)["K"])) is None:
+                        ctx.inconclusive("bad pin entry")
+                        return
+                    ctx.violation("shared secret with leading zero bytes computed wrongly",
+                                  "%s side recorded a K that is not the secret of the pinned key pair (class %s)"
+                                  % ("client" if side == "c" else "server", cls),
+                                  dict(case=desc, exchange=i, side=side, got=str(got), want=str(w)))
+                    return
+        ctx.count("pinned.sessions")
+        ctx.count("pinned.%s" % cls)
+        ctx.count("pinned.%s.%s" % (kexpins.GROUP_OF[kex], cls))
+        if second:
+            ctx.count("pinned.second_exchange_pinned_too")
+        judge_exchanges(ctx, lab, desc, 2)
+    finally:
+        kexpins.unpin(lab.tc)
+        kexpins.unpin(lab.ts)
+        lab.close()
+
+
+GEX_RANGES = (
+    (512, 2048, 8192), (1024, 2048, 16384), (2048, 2048, 2048), (4096, 4096, 4096), (1024, 3072, 8192),
+    (512, 4096, 16384), (2048, 4096, 8192), ("old", 2048), ("old", 4096), ("old", 1024),
+)
+
+
+def gex_client_class(base, rng_spec):
+    """Client-side KexGex with another (min, preferred, max) request, or the old-style single-value request."""
+    if rng_spec[0] == "old":
+        class OldGex(base):
+            preferred_bits = rng_spec[1]
+
+            def start_kex(self):
+                return base.start_kex(self, _test_old_style=True)
+
+        return OldGex
+
+    class RangeGex(base):
+        min_bits, preferred_bits, max_bits = rng_spec
+
+    return RangeGex
+
+
+def gex_case(ctx, kex, hostalg, rng_spec, nrekeys, sample):
+    """Honest group exchange whose client asks for a non-default range: both sides must hash the values as sent
+    (RFC 4419 section 3) - judged by the RFC exchange-hash oracle fed from the client's tap."""
+    rng = ctx.rng
+    desc = dict(stratum="honest-gex-range", kex=kex, hostkey=hostalg, request=list(rng_spec), rekeys=nrekeys)
+    ctx.case(("gex", kex, hostalg, tuple(rng_spec), nrekeys), sample=desc if sample else None)
+    lab = kexlab.Lab(rng, kex, hostalg)
+    base = paramiko.Transport._kex_info[kex]
+    lab.tc._kex_info = dict(paramiko.Transport._kex_info, **{kex: gex_client_class(base, rng_spec)})
+    try:
+        if not lab.start(timeout=90):
+            ctx.violation("honest handshake failed (group exchange, non-default request): %s" % sig_of(lab),
+                          "an unmodified server and a client asking for %r did not complete the group exchange" % (rng_spec,),
+                          dict(case=desc, client_exc=repr(lab.pair.client_exc), server_exc=repr(lab.pair.server_exc)))
+            return
+        ctx.count("honest_handshakes_completed")
+        for _ in range(nrekeys):
+            r = rekey(lab, rng.choice("cs"), 90)
+            if r == "timeout":
+                ctx.inconclusive("rekey did not finish within 90 s (%r)" % desc)
+                return
+            if r is not None:
+                ctx.violation("honest rekey failed: %s" % sig_of(lab), "renegotiate_keys() on an unmodified pair raised",
+                              dict(case=desc, exc=repr(r)))
+                return
+            ctx.count("honest_rekeys_completed")
+        # the request that travelled is the one we asked for
+        sent = lab.msgs("c", "out", [30 if rng_spec[0] == "old" else 34])
+        if len(sent) != 1 + nrekeys:
+            ctx.inconclusive("expected %d group-exchange requests on the wire, saw %d (%r)" % (1 + nrekeys, len(sent), desc))
+            return
+        ctx.count("gex.sessions")
+        ctx.count("gex.sessions.%s" % ("old_style" if rng_spec[0] == "old" else
+                                       "min_below_1024" if rng_spec[0] < 1024 else
+                                       "max_above_8192" if rng_spec[2] > 8192 else
+                                       "min_eq_pref_eq_max" if rng_spec[0] == rng_spec[2] else "other"))
+        judge_exchanges(ctx, lab, desc, 1 + nrekeys)
+    finally:
+        lab.close()
+
+
 def sig_of(lab):
     for e in (lab.pair.client_exc, lab.tc.saved_exception, lab.ts.saved_exception):
         if isinstance(e, BaseException) and e.__traceback__ is not None:
@@ -575,17 +701,47 @@ def run(ctx):
             for r in rek:
                 honest_case(ctx, kex, alg, r, sample=n < 2)
                 n += 1
+        m = 0  # deterministic case index of the following strata (identical in every shard)
         # ---- honest, host key changes between exchanges -----------------------------------
         pool = ("ssh-rsa", "ssh-ed25519", "ecdsa-sha2-nistp256", "rsa-sha2-512", "ecdsa-sha2-nistp384", "rsa-sha2-256")
         for ki, kex in enumerate(kexlab.KEXES):
             for v in range(2 if ctx.quick else 6):
-                n += 1
-                if not ctx.mine(n):
+                m += 1
+                if not ctx.mine(m):
                     continue
                 length = 2 + (ki + v + ctx.seed) % 3
                 start = (ki * 2 + v * 3 + ctx.seed) % len(pool)
                 algs = [pool[(start + 2 * t + (t * t) % 3) % len(pool)] for t in range(length)]
                 multikey_case(ctx, kex, algs, sample=False)
+        # ---- honest, shared secret with leading zero bytes (pinned ephemeral keys) ---------
+        pins = ctx.guard(kexpins.load)
+        if pins is None:
+            return
+        pi = 0
+        for ki, kex in enumerate(kexlab.KEXES):
+            grp = pins[kexpins.GROUP_OF[kex]]
+            for cls in kexpins.CLASSES:
+                for ei, entry in enumerate(grp.get(cls, [])):
+                    pi += 1
+                    m += 1
+                    if not ctx.mine(m):
+                        continue
+                    if ctx.quick and ei > 0 and not kex.startswith("curve25519"):
+                        continue
+                    others = [e for c2 in kexpins.CLASSES for e in grp.get(c2, []) if e is not entry
+                              and e["server"] == entry["server"]]
+                    second = others[(pi + ctx.seed) % len(others)] if others and (pi + ctx.seed) % 2 else None
+                    pinned_case(ctx, kex, cls, entry, kexlab.HOSTALGS[(pi + ctx.seed) % 7], second, sample=False)
+        # ---- honest group exchange with non-default client requests ------------------------
+        for gi, gk in enumerate(("diffie-hellman-group-exchange-sha1", "diffie-hellman-group-exchange-sha256")):
+            for ri, spec in enumerate(GEX_RANGES):
+                m += 1
+                if not ctx.mine(m):
+                    continue
+                if ctx.quick and (ri + gi + ctx.seed) % 2 and spec not in ((512, 2048, 8192), (1024, 2048, 16384)):
+                    continue
+                gex_case(ctx, gk, kexlab.HOSTALGS[(ri + gi * 3) % 7], spec, (ri + gi) % 2 if ctx.quick else 1 + ri % 2,
+                         sample=False)
         # ---- corruption stratum --------------------------------------------------------
         j = 0
         n = 0
@@ -606,6 +762,16 @@ def run(ctx):
                         continue
                     corrupt_case(ctx, kex, alg, field, ex, sample=n < 2)
                     n += 1
+    ctx.require("pinned.sessions", 25)
+    for c_ in kexpins.CLASSES:
+        ctx.require("pinned.%s" % c_, 3)
+        ctx.require("pinned.curve25519.%s" % c_, 1)
+    ctx.require("pinned.group14.z1_lo", 2)
+    ctx.require("pinned.group14.z1_hi", 2)
+    ctx.require("gex.sessions", 8)
+    ctx.require("gex.sessions.min_below_1024", 2)
+    ctx.require("gex.sessions.max_above_8192", 2)
+    ctx.require("gex.sessions.old_style", 2)
     ctx.require("key_derivations_checked", 600)
     ctx.require("rekey_key_derivations_checked_against_first_session_id", 300)
     ctx.require("multikey.sessions", 15)
